@@ -374,6 +374,42 @@ def check_value(T, sub, name, mk, opts, streams=False, dumpers=('py', 'c')):
     T.nontrivial += 1 if (opts or not name.startswith("str:'a'")) else 0
 
 
+MULTI = [('two-plain', lambda: ['foo', 'bar']), ('three-mixed', lambda: [{'k': 1}, 'open', [1, 2]]), ('keep-then-plain', lambda: ['a\n\n', 'b']),
+         ('empties', lambda: ['', None, {}]), ('same-twice', lambda: ['x y', 'x y', 'x y'])]
+
+
+def check_multi(T, sub, name, mk, opts, dumpers=('py', 'c')):
+    """dump_all of several documents: the per-output oracles must hold for every document of the stream"""
+    for dn, SafeD, FullD in DUMPERS:
+        if dn not in dumpers:
+            continue
+        T.evaluations += 1
+        case = {'multi': name, 'options': opts, 'dumper': dn}
+        if T.trace: T.begin(case)
+        docs = mk()
+        try:
+            out = yaml.dump_all(docs, Dumper=SafeD, **opts)
+        except Exception as e:
+            T.violation(sub, 'dump-exception:' + type(e).__name__, case, detail='%s(%s)' % (type(e).__name__, str(e)[:200]))
+            continue
+        text = decode(T, sub, case, out, opts.get('encoding'))
+        if text is None:
+            continue
+        want = None
+        if opts.get('canonical'):
+            rep = yaml.representer.SafeRepresenter(default_style=opts.get('default_style'), default_flow_style=opts.get('default_flow_style', False))
+            want = node_events([rep.represent_data(d) for d in mk()])
+            want = [(('DS', True, tuple(opts['version']) if opts.get('version') else None, tuple(sorted(opts['tags'].items())) if opts.get('tags') else None) if e[0] == 'DS' else e) for e in want]
+        check_text(T, sub, case, text, opts, want_events=want, doc_count=len(docs))
+        try:
+            back = list(yaml.load_all(text, Loader=yaml.SafeLoader))
+            if back != docs:
+                T.violation(sub, 'e-documents-differ', case, detail='output %r loads as %r, dumped %r' % (_short(text), back, docs))
+        except yaml.YAMLError as e:
+            T.violation(sub, 'unparsable-output', case, detail='output %r: %s' % (_short(text), str(e).replace('\n', ' ')[:160]))
+    T.nontrivial += 1
+
+
 def check_events(T, sub, idx, ds, opts, dumpers=('py', 'c')):
     for dn, SafeD, FullD in DUMPERS:
         if dn not in dumpers:
@@ -400,6 +436,7 @@ def plan(tier, seed):
     ne = len(event_core())
     for k in range(48):
         jobs.append(('ev', k, 48, 2 if q else 3))
+    jobs += [('multi', i, 2 if q else 3) for i in range(len(MULTI))]
     nprod = 64
     for name in (SMALL_CORE if q else [n for n, _ in value_core()][::2]):
         for k in range(nprod):
@@ -425,6 +462,11 @@ def run_job(job, T):
             for o in opts:
                 check_events(T, 'events', i, ds, o)
         T.sample('events', {'event_case': i, 'options': o})
+    elif kind == 'multi':
+        name, mk = MULTI[job[1]]
+        for o in option_sets(AXES, job[2]):
+            check_multi(T, 'multi-document', name, mk, o)
+        T.sample('multi-document', {'multi': name, 'options': o})
     elif kind == 'prod':
         _, name, k, np_ = job
         mk = dict(value_core())[name]
@@ -441,7 +483,9 @@ def replay(sub, case, T):
     opts = dict(case.get('options') or {})
     if isinstance(opts.get('version'), list):
         opts['version'] = tuple(opts['version'])
-    if 'value' in case:
+    if 'multi' in case:
+        check_multi(T, sub, case['multi'], dict(MULTI)[case['multi']], opts, dumpers=(case['dumper'],))
+    elif 'value' in case:
         check_value(T, sub, case['value'], dict(value_core())[case['value']], opts, streams=True, dumpers=(case['dumper'],))
     else:
         check_events(T, sub, case.get('event_case'), E.fix(case['events']), opts, dumpers=(case['dumper'],))
